@@ -45,6 +45,8 @@ def table : List (Nat × PCert) :=
     (48, ⟨mk 48 111 100 2002 2000 (-24) 24 false kuS gm "gm.test" [1], true⟩),          -- signing usage, enc position
     (49, ⟨mk 49 110 100 2001 2000 (-24) 24 false kuE gm "gm.test" [1], true⟩),          -- encipherment usage, sign position
     (50, ⟨mk 50 110 100 2001 2000 (-24) 24 false (kuS ||| kuE) gm "gm.test" [1], true⟩), -- both usages
+    (51, ⟨mk 51 110 100 2001 2000 (-24) 24 false kuS gm "gm.test" [2], true⟩),          -- clientAuth only, sign position
+    (52, ⟨mk 52 111 100 2002 2000 (-24) 24 false kuE gm "gm.test" [2], true⟩),          -- clientAuth only, enc position
     (60, ⟨mk 60 160 300 2601 2600 (-24) 24 false 5 ["std.test"] "std.test" [1], false⟩), -- RSA
     (61, ⟨mk 61 161 300 2602 2600 (-24) 24 false 5 ["std.test"] "std.test" [1], false⟩), -- ECDSA P-256
     (70, ⟨mk 70 112 100 2003 2000 (-72) (-1) false kuS [] "main client" [2], true⟩),
@@ -63,6 +65,7 @@ def ccertOf : String → Option (List Nat × Key)
   | "absent" => some ([], 0) | "trusted" => some ([12], 2003) | "untrusted" => some ([22], 2103)
   | "expired" => some ([70], 2003) | "notyet" => some ([71], 2003) | "wrongeku" => some ([72], 2003)
   | "wrongkey" => some ([12], 2950)
+  | "chainlast" => some ([12, 22], 2103)   -- victim's certificate first, attacker's certificate and key last
   | _ => none
 
 /-- server configuration of the s-… attacks: (certificate 0, its private key, certificate 1, its private key) -/
@@ -70,6 +73,7 @@ def serverOf : String → Option (Nat × Key × Nat × Key)
   | "s-signkey-wrong" => some (10, 2950, 11, 2002)
   | "s-enckey-wrong" => some (10, 2001, 11, 2951)
   | "s-untrusted" => some (20, 2101, 21, 2102)
+  | "s-untrusted-withca" => some (20, 2101, 21, 2102)   -- plus its own CA as third entry: not a trust anchor
   | "s-untrusted-sign" => some (20, 2101, 11, 2002)
   | "s-untrusted-enc" => some (10, 2001, 21, 2102)
   | "s-expired-sign" => some (40, 2001, 11, 2002)
@@ -88,6 +92,8 @@ def serverOf : String → Option (Nat × Key × Nat × Key)
   | "s-kusign-enc" => some (10, 2001, 48, 2002)
   | "s-kuenc-sign" => some (49, 2001, 11, 2002)
   | "s-dual" => some (50, 2001, 50, 2001)
+  | "s-wrongeku-sign" => some (51, 2001, 11, 2002)
+  | "s-wrongeku-enc" => some (10, 2001, 52, 2002)
   | _ => none
 
 def skeAttacks : List String := ["ske-otherrandoms", "ske-otherclientrandom", "ske-otherserverrandom", "ske-swaprandoms",
